@@ -272,6 +272,10 @@ class Quantity:
         return self._coerce(o) - self
 
     def _cmp(self, o, op):
+        if not isinstance(o, Quantity) and not (hasattr(o, "dimensionality") and hasattr(o, "magnitude") and not isinstance(o, Sym)):
+            # the real package compares a quantity with a bare number by MAGNITUDE ONLY, whatever the units are
+            # ((3*metre) == 3 and percent == 1 are True there); the abstraction has to say the same (validated in C09.abstraction_validation)
+            return op(self.mag, o)
         o = self._coerce(o)
         return op(self.mag, o._convert_mag_to(self.u))
 
